@@ -66,7 +66,11 @@ func (ex *Exec) builtin(b *ssa.Builtin, c *ssa.CallCommon, rt types.Type, pos to
 		if ex.recoverVal != nil {
 			return *ex.recoverVal
 		}
-		_ = r
+		if r == ex && ex.fn.Parent() != nil {
+			// a function literal verified on its own (a deferred handler such as parseFile$1): it may run while a
+			// panic is in flight, so recover() yields an arbitrary value (nil when there is none)
+			return ex.freshVal("recovered", rt)
+		}
 		return em.zero(rt)
 	case "ssa:wrapnilchk":
 		ex.oblige("nil", ex.curPC, fmt.Sprintf("(not (= %s 0))", args[0].E), pos, "nil receiver in wrapper")
